@@ -322,7 +322,68 @@ fn base(prop: &str, family: &str, seed: u64, index: u64, world: WorldSpec, produ
     }
 }
 
+/// C14 thorough: systematic single-preemption enumeration. A small 2-task scenario (base) is run
+/// once per decision point with exactly one forced preemption there; 1024 consecutive indices
+/// share a base, points beyond the number of decisions degenerate to the serial schedule.
+pub const ENUM_POINTS: u64 = 1024;
+
+fn gen_c14_enum(seed: u64, index: u64) -> Scenario {
+    let base_idx = index / ENUM_POINTS;
+    let point = index % ENUM_POINTS;
+    let mut rng = Rng::new(run_seed(seed, "C14-enum", Tier::Thorough, base_idx));
+    let mut o = WorldOpts::default();
+    o.vocab_kinds = vec!["byte", "synth"];
+    o.allow_random_cfg = false;
+    let (world, productive) = gen_world(&mut rng, &o);
+    let mut sc = base("C14", "preempt_enum", seed, index, world, productive);
+    sc.threads = true;
+    sc.schedule = Some(ScheduleSpec {
+        strategy: Strategy::Serial,
+        seed: 0,
+        sticky_period: 0,
+        pct_depth: 0,
+        explicit: None,
+        preempt_at: vec![point],
+    });
+    let mut g = G { rng: &mut rng, ops: vec![] };
+    g.ops.push(Op::New {
+        h: 0,
+        kind: HKind::Matcher,
+        alt: None,
+    });
+    for _ in 0..g.rng.below(3) {
+        let p = g.honest();
+        g.ops.push(Op::Commit {
+            h: 0,
+            pick: p,
+            fuel_at: None,
+        });
+    }
+    g.ops.push(Op::Clone {
+        src: 0,
+        dst: 1,
+        deep: false,
+    });
+    sc.setup = std::mem::take(&mut g.ops);
+    for t in 0..2 {
+        // cold lexer: the first mask of each clone grows the shared automaton (long critical section)
+        g.ops.push(Op::Mask { h: t, fuel_at: None });
+        let p = g.honest();
+        g.ops.push(Op::Commit {
+            h: t,
+            pick: p,
+            fuel_at: None,
+        });
+        g.ops.push(Op::ChkFresh { h: t });
+        sc.tasks.push(std::mem::take(&mut g.ops));
+    }
+    sc
+}
+
 pub fn generate(prop: &str, seed: u64, tier: Tier, index: u64) -> Scenario {
+    if prop == "C14" && tier == Tier::Thorough && index % 4 == 3 {
+        return gen_c14_enum(seed, index / 4);
+    }
     let rs = run_seed(seed, prop, tier, index);
     let mut rng = Rng::new(rs);
     let long = tier == Tier::Thorough;
@@ -876,9 +937,34 @@ fn gen_c13(rng: &mut Rng, seed: u64, index: u64, long: bool) -> Scenario {
     let prompt = random_prompt(rng, &world.vocab);
     let mut sc = base("C13", "ff", seed, index, world, productive);
     let steps = if long { rng.range(20, 50) } else { rng.range(8, 24) };
-    let sub = rng.below(3);
+    let sub = rng.below(4);
     let mut g = G { rng, ops: vec![] };
-    if sub == 0 {
+    if sub == 3 {
+        // the canonical tokenizer is the C tokenize_fn callback (two-call "buffer too small" protocol)
+        sc.family = "ff_c_callback".into();
+        sc.c_tok_v2 = g.rng.chance(0.5);
+        g.ops.push(Op::New {
+            h: 0,
+            kind: HKind::CConstraint { ff: true },
+            alt: None,
+        });
+        g.ops.push(Op::New {
+            h: 1,
+            kind: HKind::CConstraint { ff: false },
+            alt: None,
+        });
+        for _ in 0..steps {
+            for h in 0..2 {
+                let p = g.honest();
+                g.ops.push(Op::CMaskOnly { h });
+                g.ops.push(Op::ChkText { h });
+                g.ops.push(Op::CCommitOnly { h, pick: p });
+            }
+        }
+        for h in 0..2 {
+            g.ops.push(Op::ChkText { h });
+        }
+    } else if sub == 0 {
         sc.family = "ff_matcher".into();
         g.ops.push(Op::New {
             h: 0,
@@ -957,6 +1043,7 @@ pub fn gen_schedule(rng: &mut Rng) -> ScheduleSpec {
         sticky_period: [2u32, 5, 20, 100][rng.below(4)],
         pct_depth: rng.range(1, 4) as u32,
         explicit: None,
+        preempt_at: vec![],
     }
 }
 
